@@ -3,6 +3,7 @@
 package vsync
 
 import (
+	"fmt"
 	"sync"
 
 	"github.com/centrifugal/centrifuge/internal/zzverif/vsched"
@@ -444,6 +445,9 @@ func (m *Map) Load(k any) (any, bool) {
 		return m.real.Load(k)
 	}
 	v, ok := m.m[k]
+	if vsched.Tracing() {
+		vsched.TraceNote(fmt.Sprintf("Load %+v -> %v", k, ok))
+	}
 	return v, ok
 }
 
